@@ -210,3 +210,52 @@ Proof.
 Qed.
 
 End Kernels.
+
+(* ---------- statements used by Properties/C03.v ---------- *)
+
+Lemma window_after_spec : forall A (d : A) (s : list A) R p, p < length s ->
+  window_at_index s R p false = map (fun k => nth (p + k) s d) (seq 1 (Nat.min R (length s - 1 - p))).
+Proof.
+  intros. rewrite (window_at_index_positions A d) by assumption. unfold win_positions. rewrite map_map. reflexivity.
+Qed.
+
+Lemma window_before_spec : forall A (d : A) (s : list A) R p, p < length s ->
+  window_at_index s R p true = map (fun k => nth (p - k) s d) (seq 1 (Nat.min R p)).
+Proof.
+  intros. rewrite (window_at_index_positions A d) by assumption. unfold win_positions. rewrite map_map. reflexivity.
+Qed.
+
+Lemma kernel_nth : forall (K : carrier) (kf : nat -> K) mask off (win : list nat) j, j < length win ->
+  nth j (kernel kf mask false off win) zero =
+  if (j <? off) || is_mask mask (nth j win 0) then zero else kf (j + 1).
+Proof.
+  intros K kf mask off win j Hj. unfold kernel, finish_kernel.
+  rewrite raw_kernel_nth by (rewrite ?base_weights_length; try reflexivity; assumption).
+  unfold base_weights. rewrite (nth_map_lt _ _ _ _ 0 zero) by (rewrite seq_length; assumption).
+  rewrite seq_nth by assumption. replace (1 + j) with (j + 1) by lia. reflexivity.
+Qed.
+
+Lemma timed_kernel_nth : forall (K : carrier) Tm (g : Tm -> K) (t0 : Tm) mask off (win : list nat) (deltas : list Tm) j,
+  length win = length deltas -> j < length win ->
+  nth j (timed_kernel g mask false off win deltas) zero =
+  if (j <? off) || is_mask mask (nth j win 0) then zero else g (nth j deltas t0).
+Proof.
+  intros K Tm g t0 mask off win deltas j Hl Hj. unfold timed_kernel, finish_kernel.
+  rewrite raw_kernel_nth by (rewrite ?map_length; assumption).
+  rewrite (nth_map_lt _ _ _ _ t0 zero) by lia. reflexivity.
+Qed.
+
+Lemma kernel_length : forall (K : carrier) (kf : nat -> K) mask norm off (win : list nat),
+  length (kernel kf mask norm off win) = length win.
+Proof.
+  intros. unfold kernel, finish_kernel.
+  destruct norm; rewrite ?l1_normalize_length, offset_out_length, mask_out_length, base_weights_length;
+    rewrite ?base_weights_length; reflexivity.
+Qed.
+
+Lemma window_at_index_map : forall A B (f : A -> B) (s : list A) R p reverse,
+  window_at_index (map f s) R p reverse = map f (window_at_index s R p reverse).
+Proof.
+  intros. unfold window_at_index, slice. rewrite map_length.
+  destruct reverse; rewrite skipn_map, firstn_map, ?map_rev; reflexivity.
+Qed.
